@@ -274,6 +274,11 @@ def _annotated(I, node, env, ann, fname, k, kind, iterable=None):
         inv0 = ann["invariant"](st)
         ctx.prove(f"{tag}.init", _conj(I, inv0))
     # --- havoc
+    if kind == "for":
+        i = fresh_int("idx")
+        ctx.assume(z3.And(i >= Z(lo), i <= z3.If(Z(hi) >= Z(lo), Z(hi), Z(lo))))
+        hidden[idx_name] = i
+    st = LoopState(I, env, hidden)
     frame_vars = set(names) | set(mutated) | set(ann.get("modifies", ()))
     for n in sorted(frame_vars):
         found, cur = env.lookup(n)
@@ -281,20 +286,15 @@ def _annotated(I, node, env, ann, fname, k, kind, iterable=None):
             continue
         hv = ann.get("havoc", {}).get(n)
         if hv is not None:
-            env.vars[n] = hv(I, cur)
+            env.vars[n] = hv(I, cur, st)
         elif n in mutated and not (n in names):
             # mutated container: must be havocked through an explicit rule
             if isinstance(cur, SBytes) and cur.kind == "bytearray":
                 t = fresh_bytes(n)
                 ctx.assume(blen(t) >= 0)
                 cur.rope = R.Rope([R.full_atom(t)])
-            elif isinstance(cur, list):
-                hvl = ann.get("havoc_list", {}).get(n)
-                if hvl is None:
-                    raise OutOfReach(f"loop {tag}: list {n} is mutated; needs a havoc rule")
-                env.vars[n] = hvl(I, cur)
             else:
-                raise OutOfReach(f"loop {tag}: {n} ({type(cur).__name__}) is mutated; needs a havoc rule")
+                raise OutOfReach(f"loop {tag}: {n} ({type(cur).__name__}) is mutated in the body; the annotation needs a havoc rule for it")
         else:
             env.vars[n] = havoc_like(I, cur, n)
     for g in ann.get("ghost", ("ticks", "copied", "kdf_calls")):
@@ -302,10 +302,6 @@ def _annotated(I, node, env, ann, fname, k, kind, iterable=None):
             fg = fresh_int("ghost_" + g)
             ctx.assume(fg >= Z(ctx.ghost[g]))
             ctx.ghost[g] = fg
-    if kind == "for":
-        i = fresh_int("idx")
-        ctx.assume(z3.And(i >= Z(lo), i <= z3.If(Z(hi) >= Z(lo), Z(hi), Z(lo))))
-        hidden[idx_name] = i
     st = LoopState(I, env, hidden)
     if ann.get("invariant") is not None:
         ctx.assume(_conj(I, ann["invariant"](st)))
